@@ -86,6 +86,11 @@ func runCheck(o checkOpts) int {
 				results = append(results, &FuncResult{Func: "lemma " + lm.Name, Undecided: msg})
 			}
 		}
+		for _, rt := range ps.RoundTrips {
+			if contains(rt.Props, o.prop) {
+				results = append(results, e.verifyRoundTrip(ps, rt))
+			}
+		}
 	}
 	results = append(results, e.verifyProtocols(o.prop)...)
 	extra := e.extraChecks(o.prop)
@@ -249,6 +254,12 @@ func runCheck(o checkOpts) int {
 		}
 	}
 	var drv []DriverRun
+	driverModelValues = nil
+	for _, ob := range e.obls {
+		if ob.Verdict == "refuted" && (ob.Kind == "roundtrip" || strings.HasPrefix(ob.Query, "(set-option :produce-models true)\n(set-logic QF_BV)")) {
+			driverModelValues = append(driverModelValues, modelIntArgs(ob.Model)...)
+		}
+	}
 	if needDriver {
 		drv = runDrivers(o)
 	}
